@@ -40,8 +40,16 @@ def main():
     meta["demo_pristine"] = {"rc": rc, "tail": o[-300:]}
     rc, o = sh(f"git apply {dest}/patch.diff", cwd=wt)
     meta["applies_in_worktree"] = rc == 0
-    rc, o = sh("/venv/bin/python -W ignore -m pytest -q -p no:cacheprovider --timeout=900 2>&1 | tail -3", cwd=wt, env=env)
-    meta["suite_with_change"] = o.strip().splitlines()[-1] if o.strip() else ""
+    # the pinned suite has one randomised test (test_knotclean_random) that fails about once in 300 runs on the unchanged
+    # tree too: a failing run is repeated (up to 3 runs), every summary line is recorded
+    runs = []
+    for _ in range(3):
+        rc, o = sh("/venv/bin/python -W ignore -m pytest -q -p no:cacheprovider --timeout=900 2>&1 | tail -3", cwd=wt, env=env)
+        runs.append(o.strip().splitlines()[-1] if o.strip() else "")
+        if "passed" in runs[-1] and "failed" not in runs[-1]:
+            break
+    meta["suite_with_change"] = runs[-1]
+    meta["suite_runs"] = runs
     rc, o = sh(f"/venv/bin/python -W ignore {dest}/demo.py", cwd=wt, env=env, timeout=600)
     meta["demo_mutated"] = {"rc": rc, "tail": o[-600:]}
     sh("git checkout -- src", cwd=wt)
